@@ -13,9 +13,9 @@ if ! (cd "$scratch/repo" && git init -q . && git apply --whitespace=nowarn "$pat
   echo "PATCH DOES NOT APPLY: $(head -3 $scratch/apply.err)"; exit 3
 fi
 rm -rf "$scratch/repo/.git"
-cd /verif
+cd "$(dirname "$(readlink -f "$0")")"
 for p in $props; do
-  out=$(VERIF_REPO="$scratch/repo" VERIF_EVIDENCE_DIR="$scratch/ev" ./check $p quick 2>&1)
+  out=$(VERIF_TIME_LIMIT=4m VERIF_REPO="$scratch/repo" VERIF_EVIDENCE_DIR="$scratch/ev" ./check $p quick 2>&1)
   rc=$?
   if [ $rc -ne 0 ]; then
     echo "== $p exit=$rc"
